@@ -4018,7 +4018,9 @@ class cmd_ignore(Command):  # noqa: D101
             raise errors.CommandError(
                 gettext("ignore requires at least one NAME_PATTERN or --default-rules.")
             )
-        name_pattern_list = [globbing.normalize_pattern(p) for p in name_pattern_list]
+        name_pattern_list = [
+            globbing.normalize_ignore_pattern(p) for p in name_pattern_list
+        ]
         bad_patterns = ""
         bad_patterns_count = 0
         for p in name_pattern_list:
